@@ -150,10 +150,14 @@ def _sub(d1, d2):
 NAN_OK = {"prod", "sum", "nansum", "mean", "nanmean", "max", "nanmax", "min", "nanmin", "std", "nanstd", "var", "nanvar", "cumsum", "nancumsum", "median", "nanmedian",
           "amax", "amin", "cumprod", "nancumprod", "nan_to_num", "nanargmax", "nanargmin", "isnan", "isfinite", "average", "ptp"}
 POOLS = {"L": L, "T": T, "B": B, "D": D, "A": A}
+# registries built with auto_reduce_dimensions=True rewrite products and powers: operands whose unit repeats a dimension make that visible
+COMPOUND = {"L": ["meter * centimeter / inch", "kilometer * foot / meter"], "T": ["second * hour / minute"]}
+POOL_FACTORS.update({"meter * centimeter / inch": 0.01 / 0.0254, "kilometer * foot / meter": 1000 * 0.3048, "second * hour / minute": 60.0})
+COMPOUND_DIM = {"meter * centimeter / inch": "meter", "kilometer * foot / meter": "meter", "second * hour / minute": "second"}
 
 
 def _dim(R, unit):
-    return {} if unit == "dimensionless" else R.resolve_spelling(unit).dim
+    return {} if unit == "dimensionless" else R.resolve_spelling(COMPOUND_DIM.get(unit, unit)).dim
 
 
 def _factor(R, unit):
@@ -246,7 +250,7 @@ def case_call(case, col=None):
     import pint
 
     R = env.R()
-    ureg = env.ureg("float")
+    ureg = env.ureg("float", auto_reduce_dimensions=True) if case.get("config") == "auto_reduce" else env.ureg("float")
     rec = _recipe(case["recipe"])
     shape = tuple(case["shape"])
     rng_vals = case["values"]
@@ -265,9 +269,12 @@ def case_call(case, col=None):
         arrays.append(vals)
     uA, uB = case["unitsA"], case["unitsB"]
     if col is not None:
-        col.case(("c", rec["name"], tuple(uA), tuple(uB), shape), uA != uB or len(set(uA)) > 1, sample={"function": rec["name"], "unitsA": uA, "unitsB": uB, "shape": shape}, cls=rec["name"].split(":")[0])
+        col.case(("c", rec["name"], tuple(uA), tuple(uB), shape, case.get("config")), uA != uB or len(set(uA)) > 1, sample={"function": rec["name"], "unitsA": uA, "unitsB": uB, "shape": shape, "config": case.get("config")}, cls=rec["name"].split(":")[0])
+        if case.get("config"):
+            col.count("config:" + case["config"])
     argsA = build_args(np, ureg, R, rec, arrays, uA)
     keepA = [a.magnitude.copy() for a in argsA]
+    keepU = [dict(a._units) for a in argsA]
     sA, rA = attempt(rec["fn"], np, *argsA)
     if rec.get("raises"):
         sB, rB = attempt(rec["fn"], np, *build_args(np, ureg, R, rec, arrays, case["unitsB"]))
@@ -280,8 +287,8 @@ def case_call(case, col=None):
     if sA == "err":
         raise Violation(f"numpy_call_raised:{rec['name']}:{exc_class(rA)}", f"np.{rec['name']} on units {uA}, shape {shape} raised {type(rA).__name__}: {rA}")
     if not rec.get("inplace"):
-        for a, k, u in zip(argsA, keepA, uA):
-            if not np.array_equal(a.magnitude, k, equal_nan=True) or (dict(a._units) != ({u: 1} if u != "dimensionless" else {})):
+        for a, k, u, ku in zip(argsA, keepA, uA, keepU):
+            if not np.array_equal(a.magnitude, k, equal_nan=True) or dict(a._units) != ku:
                 raise Violation(f"numpy_call_modified_input:{rec['name']}", f"np.{rec['name']} changed its input ({u})")
     dims = [_dim(R, u) for u in uA]
     nA = normalise(R, rA)
@@ -346,15 +353,19 @@ def _call_strategy(idxs):
         i = draw(st.sampled_from(idxs))
         rec = RECIPES[i]
         uA, uB = [], []
+        config = draw(st.sampled_from([None, None, None, "auto_reduce"]))
         for role in rec["roles"]:
-            pool = POOLS[role]
-            uA.append(draw(st.sampled_from(pool)))
-            uB.append(draw(st.sampled_from(pool)))
+            for side in (uA, uB):
+                # (an explicit coin rather than a longer pool: Hypothesis tends to repeat earlier index choices, which starved the tail of the pool)
+                if config and role in COMPOUND and draw(st.booleans()):
+                    side.append(draw(st.sampled_from(COMPOUND[role])))
+                else:
+                    side.append(draw(st.sampled_from(POOLS[role])))
         shape = draw(st.sampled_from([(3,), (4,), (2, 2), (2, 3)]))
         vals = draw(st.lists(st.integers(1, 40).map(float), min_size=6, max_size=12))
         if draw(st.booleans()):
             vals = [v + 0.5 for v in vals]
-        return {"recipe": rec["name"], "unitsA": uA, "unitsB": uB, "shape": list(shape), "values": vals, "nan": draw(st.sampled_from([0, 1, 2, 3]))}
+        return {"recipe": rec["name"], "unitsA": uA, "unitsB": uB, "shape": list(shape), "values": vals, "nan": draw(st.sampled_from([0, 1, 2, 3])), "config": config}
 
     return strat()
 
